@@ -74,11 +74,22 @@ def mutate(case, kind, pick):
                 for sub, path in _walk(holder[key]):
                     if sub[0] == "call" and sub[1] in ("and", "or") and len(sub[2]) == 2:
                         sites.append((holder, key, path, sub))
-        if not sites:
-            return None
-        holder, key, path, sub = pick(sites)
         import copy as _copy
 
+        if not sites:
+            # no chain in the program: make one out of a select_rows condition e -> p: (e and e), q: (e and e and e)
+            sel = [i for i in reach if c["nodes"][i]["op"] == "select_rows"]
+            if not sel:
+                return None
+            i = pick(sel)
+            e = c["nodes"][i]["expr"]
+            op = pick(["and", "or"])
+            p2 = spec.clone(c)
+            p2["nodes"][i]["expr"] = ["call", op, [_copy.deepcopy(e), _copy.deepcopy(e)]]
+            c["nodes"][i]["expr"] = ["call", op, [_copy.deepcopy(e), _copy.deepcopy(e), _copy.deepcopy(e)]]
+            c["_pair_p"] = p2
+            return c
+        holder, key, path, sub = pick(sites)
         _subst(holder, key, path, ["call", sub[1], list(sub[2]) + [_copy.deepcopy(sub[2][0])]])
         return c
     if kind == "collection":
@@ -222,7 +233,7 @@ def mutate(case, kind, pick):
         # partition_by=1 (window over the whole table) <-> no window at all, everything else unchanged; for operators
         # that do not imply a window by themselves (_size(), _count()) the flag is the only difference
         cand = of("extend", lambda nd: nd.get("partition_by") == 1 and not nd.get("order_by"))
-        if cand:
+        if cand and pick([True, False]):
             i, nd = pick(cand)
             nd.pop("partition_by")
             return c
@@ -475,6 +486,8 @@ def pairs(draw, closed=()):
         except (KeyError, IndexError, schema.TypeErr):
             q = None
         if q is not None:
+            if "_pair_p" in q:
+                return {"p": q.pop("_pair_p"), "q": q, "mutation": kind}
             if q.pop("_window_flag_pair", None):
                 # both members are new: ... .extend({n: _size()}) without a window / with partition_by=1
                 p2 = spec.clone(q)
@@ -536,5 +549,5 @@ def run(ctx):
                 ev.count(k)
         return f
 
-    ctx.campaign("main", pairs(ctx.closed), oracle, max_examples=ctx.n(800, 160000))
+    ctx.campaign("main", pairs(ctx.closed), oracle, max_examples=ctx.n(1200, 160000))
     ctx.campaign("record_maps", record_pairs(), oracle, max_examples=ctx.n(100, 8000))
